@@ -123,6 +123,7 @@ pub fn corpus(format: usize, rng: &mut Rng, m128: bool) -> Vec<u8> {
                 big_unknown: if rng.chance(1, 16) { 66000 + rng.below(5000) as usize } else { 0 },
                 zlib_exact: None,
                 hdr_flags: if rng.chance(1, 4) { rng.u8() } else { 0 },
+                hold_int: if rng.chance(1, 4) { rng.u8() } else { 0 },
             };
             write_szx(&s, &opt)
         }
